@@ -145,8 +145,6 @@ func (m *observerManager) AddObserver(o *Observer, w *World) {
 		panic("observer callback must be set via Do before registering")
 	}
 
-	o.id = m.pool.Get()
-
 	o.hasComps, o.hasWith, o.hasWithout = false, false, false
 
 	switch o.event {
@@ -189,6 +187,9 @@ func (m *observerManager) AddObserver(o *Observer, w *World) {
 		}
 	}
 
+	// Take the ID only after all checks passed,
+	// so that a failed registration leaves the observer unregistered.
+	o.id = m.pool.Get()
 	m.indices[o.id] = uint32(len(m.observers[o.event]))
 	m.observers[o.event] = append(m.observers[o.event], &o.observerData)
 	m.hasObservers[o.event] = true
